@@ -319,6 +319,8 @@ def judge(model, mode, backend, occ, ents=None):
             for r in e["refs"]:
                 dcx = dcx or odd_ctx(model["ents"], r, DISTORT_CTX)
         cx = dcx or e.get("ctx") or ""
+        if e.get("via_alias") and cx not in DISTORT_CTX:
+            cx = (cx + "+alias") if cx else "alias"      # the signature reaches a type through a typedef/using alias
         sig = f"{tag},{k}" + (f",{cx}" if cx else "")
         cnt[f"judged_tag_{tag}"] = cnt.get(f"judged_tag_{tag}", 0) + 1
         if s == "unspec":
@@ -402,6 +404,23 @@ def _args(model, root):
     return args, incs
 
 
+def effective_ents(model, keep):
+    """the entities that exist when only the chunks in `keep` are kept; a macro defined several times takes the
+    facts of its last surviving definition"""
+    out = {}
+    for n, v in model["ents"].items():
+        if v.get("defs"):
+            defs = [d for d in v["defs"] if d["chunk"] is None or tuple(d["chunk"]) in keep]
+            if not defs:
+                continue
+            d = defs[-1]
+            v = dict(v, file=d["file"], ownvis=d["ownvis"], vis=d["ownvis"], chunk=d["chunk"], tag=d["tag"], defs=defs)
+            out[n] = v
+        elif v.get("chunk") is None or tuple(v["chunk"]) in keep:
+            out[n] = v
+    return out
+
+
 def minimise(b, model, root, mode, backend, key, entity):
     """ddmin over the top-level chunks of all files while `key` is still produced for `entity`."""
     allchunks = [(fr["id"], i) for fr in model["files"] for i in range(len(fr["chunks"]))]
@@ -421,7 +440,7 @@ def minimise(b, model, root, mode, backend, key, entity):
             how, occ = run_tool(b, model, mroot, mode, backend, tag="m")
             if how != "ok":
                 return False
-            ents = {k: v for k, v in model["ents"].items() if v.get("chunk") is None or tuple(v["chunk"]) in keep}
+            ents = effective_ents(model, keep)
             occ = {k: v for k, v in occ.items() if k in ents}
             viol, _, _ = judge(model, mode, backend, occ, ents)
             return any(kk == key and d["entity"] == entity for kk, d in viol)
@@ -450,14 +469,15 @@ def minimise(b, model, root, mode, backend, key, entity):
         fr2["chunks"] = [fr["chunks"][i] for i in kk]
         fr2["_remap"] = remap
         red["files"].append(fr2)
+    def rm(ch):
+        return None if ch is None else [ch[0], red["files"][ch[0]]["_remap"][ch[1]]]
+
     ents = {}
-    for nme, v in model["ents"].items():
-        if v.get("chunk") is None:
-            ents[nme] = v
-        elif tuple(v["chunk"]) in keep:
-            v2 = dict(v)
-            v2["chunk"] = [v["chunk"][0], red["files"][v["chunk"][0]]["_remap"][v["chunk"][1]]]
-            ents[nme] = v2
+    for nme, v in effective_ents(model, keep).items():
+        v2 = dict(v, chunk=rm(v.get("chunk")))
+        if v.get("defs"):
+            v2["defs"] = [dict(d, chunk=rm(d["chunk"])) for d in v["defs"]]
+        ents[nme] = v2
     for fr2 in red["files"]:
         fr2.pop("_remap", None)
     red["ents"] = ents
@@ -572,6 +592,13 @@ def main(chk):
     # Appendix D: one row per gate -- how many classified names (must / must-not / unspecified) carried each tag
     chk.extra["judged_per_tag"] = {k[len("judged_tag_"):]: v for k, v in sorted(chk.counters.items())
                                    if k.startswith("judged_tag_")}
+    need = {"ignoreinvolved reached through an alias": lambda f: f.startswith("absent:ign_involved,") and "alias:" in f,
+            "private type reached through an alias": lambda f: f.startswith("absent:privtype,") and "alias:" in f,
+            "exported signature through an alias": lambda f: f.startswith("present:") and "alias:" in f,
+            "macro identically re-#defined into an exported place": lambda f: f.startswith("present:") and "redef-same:" in f,
+            "macro re-#defined into a non-exported place": lambda f: f.startswith("absent:") and ",macro,redef-" in f}
+    chk.extra["family_rows"] = {k: sum(1 for f in chk.features if fn(f)) for k, fn in need.items()}
     missing_rows = [t for t in visgen.TAGS if t != "unspec" and not chk.extra["judged_per_tag"].get(t)]
+    missing_rows += [k for k, v in chk.extra["family_rows"].items() if not v]
     if missing_rows:
         raise core.HarnessError("workload did not exercise the gates of tags: " + ", ".join(missing_rows))
